@@ -52,9 +52,10 @@ P = {
  "C13": ("proof", "4.C13", "Coq proof about the amd64 assembly itself (instruction lists regenerated from the .s files by tools/asm2prog.py on every run, executed by the machine model X86.v) and about every pure-Go kernel body, for every length / address / alignment / surrounding memory, with and without AVX2; + guard-page sweep on the real CPU + machine model validated against the real kernels",
          "Proved (Properties/C13.v): IndexNonASCII/IndexByteNonASCII, IndexByte/IndexByteString (wrappers' letter test and both bodies) and Count/CountString (POPCNT hand-over, letter test, both counting bodies) of the go1.22+ file set return index_non_ascii / k_index_byte / k_count, the scalar definitions, started from arbitrary register contents; Done also means every load stayed inside the 4 KiB pages holding a byte of the argument, the only store was the result slot, no address or counter wrapped, no jump read an undefined flag. The portable, no-POPCNT and standard-library based Go bodies are proved equal to the same definitions. "
          "Modelled, not verified: the x86 instruction semantics of X86.v (validated on every run: the extracted interpreter is run on the translated programs at 6 placements x 3 surroundings x 4 AVX2/POPCNT combinations x 2 entry points against what the real kernels returned), the translator tools/asm2prog.py, the pre-1.22 file set and the GOAMD64=v3 preprocessing of the assembly (translated and swept, not proved), arm64 assembly. Search for a failing input when a proof breaks: the guard-page sweep (lengths 0..200 + page-crossing lengths quick / 0..4352 thorough, all alignments, flush against PROT_NONE pages on both sides, needle-filled surroundings)."),
- "C14": ("other", "4.C14", "Coq proof that all Go-level kernel variants equal one scalar definition + the correspondence corpus executed under 6 configurations and compared case by case",
-         "PARTIAL: the assembly kernels' AVX2 and SSE paths and the Go fallbacks are each proved equal to the same scalar definitions (C13: the theorems hold for avx2 = true and false, popcnt = true; Kernels.v for the Go bodies), so those back ends agree on every input; the GOAMD64=v3 preprocessing and the exported functions above the kernels are compared dynamically: configurations = runtime AVX2, cpu.avx2=off, cpu.popcnt=off, both off, GOAMD64=v3, GOARCH=386 (portable file set, executed natively), plus the standard-library based kernels compiled on the host. "
-         "Real non-x86 hardware and a CPU without AVX2 (the linknamed runtime IndexString still sees AVX2) are out of reach."),
+ "C14": ("proof", "4.C14", "Coq proof that every kernel back end computes the same function (the assembly with its AVX2 path, with its SSE path, the GOAMD64=v3 preprocessing of the assembly, the no-POPCNT Go fallback, the portable and the standard-library based Go bodies all return the scalar definitions) and that the search models above the kernels do not depend on the back-end parameters; + the correspondence corpus executed under 6 configurations and compared case by case",
+         "Proved (Properties/C14.v): C14_kernel_backends_agree — for IndexNonASCII, IndexByteString and CountString the run of the default assembly with AVX2, without AVX2, of the v3 preprocessing (proofs derived by tools/mkv3.py from the default ones and re-checked) and the Go bodies yield one value, at any placement; C14_search_models_configuration_free — the models of Index, IndexRune, IndexByte, IndexAny, LastIndexAny return the same result under every NativeIndex / cut-over / threshold setting (each refines the same Spec). "
+         "PARTIAL: the tie of those models and of the machine model to the code is the correspondence, run under every configuration: runtime AVX2, cpu.avx2=off, cpu.popcnt=off, both off, GOAMD64=v3, GOARCH=386 (portable file set, executed natively), plus the standard-library based kernels compiled on the host. "
+         "Real non-x86 hardware (arm64 assembly) and a CPU without AVX2 (the linknamed runtime IndexString still sees AVX2) are out of reach."),
  "C15": ("proof", "4.C15", "Coq proof (all Spec theorems are over utf8.DecodeRune segmentation, no well-formedness hypothesis) + ill-formed corpus", "Every Spec characterisation holds for arbitrary bytes; the decoder model is validated against unicode/utf8; all 23 functions run on a dense ill-formed corpus and exhaustive small alphabets."),
  "C16": ("proof", "4.C16", "Coq proof (key invariance under re-casing) + relation evaluated on the implementation", "All results are functions of the folded key; offsets are the same code-point index. The relation is also evaluated directly on both packages with width-changing orbit members."),
  "C17": ("proof", "4.C17", "Coq proof of each relation for Spec + relations evaluated on the implementation", "Every listed relation proved for Spec on all byte strings except IndexRune=Index(string(r)) and IndexByte=Index(string(c)), which are evaluated on the implementation only."),
